@@ -39,5 +39,9 @@ if __name__ == "__main__":
             fp = r["violation"]["fingerprint"]
             name = f"{prop}-{r['violation']['clause']}-" + "-".join(str(fp.get(k)) for k in ("kind", "prop_kind", "call", "backward", "short_span") if fp.get(k) is not None)
             path = os.path.join(out, name.replace(" ", "_") + ".json")
+            k = 1
+            while os.path.exists(path):
+                k += 1
+                path = os.path.join(out, name.replace(" ", "_") + f"-{k}.json")
             json.dump({"property": prop, "clause": r["violation"]["clause"], "seed": plan.get("seed"), "run": plan.get("run"), "violation": r["violation"], "log_digest": r["digest"], "plan": mplan}, open(path, "w"), indent=1, sort_keys=True)
             print(path, len(plan["ops"]), "->", len(mplan["ops"]), "|", r["violation"]["detail"][:200])
